@@ -62,7 +62,8 @@ ASSUMPTIONS = [
     'asserted by the test-suite for local values)',
     'h5py is trusted as the reference reader of what is stored',
 ]
-BUDGET = {'quick': {'cases': 4000, 'shards': 16, 'seconds': 150, 'shrink_s': 25},
+BUDGET = {'quick': {'cases': 4000, 'shards': 16, 'seconds': 150,
+                    'shrink_s': int(os.environ.get('VERIF_SHRINK_S') or 25)},
           'thorough': {'cases': 120000, 'shards': 16, 'seconds': 840, 'shrink_s': 60}}
 FLOORS = {'t4': 0.4, 'ap3': 0.25, 't4:editions>=2': 0.2, 't4:e-decreasing': 0.15,
           't4:t-steps': 0.1, 't4:t-decreasing': 0.04, 't4:negative': 0.15, 't4:zero': 0.1,
@@ -288,7 +289,7 @@ def _check_binned(out, dset, exp, which, values, sigmas, what):
         gotb = np.asarray(dset.bins.get(dim, []), dtype=float)
         if not _same_exact(gotb, np.asarray(bounds, dtype=float)):
             out.failures.append(Failure(
-                f't4_{which}_bins', f'C10/t4/{which}_bins/{dim}/{feat}',
+                't4_bins', f'C10/t4/bins/{dim}/{feat}',
                 f'{what}: {dim} bins {gotb.tolist()} expected {list(bounds)}'))
 
 
@@ -538,6 +539,14 @@ def _run_t4_truth(out, truth, accesses):
                 browser = pres.to_browser()
             except Exception as exc:   # every edition of an in-domain listing must be readable
                 out.failures.append(exc_failure('t4_parse_raises', exc, excfeat))
+                continue
+            if browser.globals.get('batch_number') != edition['batch']:
+                # not the requested edition: the other clauses (stated for the requested
+                # edition) would only repeat this failure for every number of the listing
+                out.failures.append(Failure(
+                    't4_wrong_edition', f'C10/t4/wrong_edition/by-{access}',
+                    f'edition {edition["batch"]} requested by {access} (position {ied} of '
+                    f'{expnum}), got batch_number {browser.globals.get("batch_number")!r}'))
                 continue
             _check_edition(out, browser, edition, truth.get('edition_line', True),
                            f'{edition["batch"]} (by {access})')
